@@ -252,6 +252,17 @@ static const char *wf(const config_setting_t *s, const config_setting_t *parent)
       if (!k->name) return "nameless-member";
       if (!valid_name(k->name)) return "invalid-name";
       if (config_setting_get_member(s, k->name) != k) return "member-lookup-disagrees";
+      { /* a name no child has finds nothing: proper prefixes and extensions of this child's name */
+        size_t L = strlen(k->name); char *q = malloc(L + 3); const config_setting_t *m; size_t cut[2]; int c;
+        cut[0] = L - 1; cut[1] = 1;
+        for (c = 0; c < 2; c++) if (cut[c] >= 1 && cut[c] < L) {
+          memcpy(q, k->name, cut[c]); q[cut[c]] = 0; m = config_setting_get_member(s, q);
+          if (m && strcmp(m->name, q) != 0) { free(q); return "member-lookup-returns-other-name"; }
+        }
+        memcpy(q, k->name, L); q[L] = '_'; q[L + 1] = 0; m = config_setting_get_member(s, q);
+        if (m && strcmp(m->name, q) != 0) { free(q); return "member-lookup-returns-other-name"; }
+        free(q);
+      }
       for (j = 0; j < i; j++) if (!strcmp(config_setting_get_elem(s, j)->name, k->name)) return "duplicate-name";
     } else {
       if (k->name) return "named-element";
